@@ -363,6 +363,50 @@ for 5 ms later are let through at 15 s and 15.1 s -/
 example : runNs ⟨1000, 1, 1000000⟩ (TB.init ⟨1000, 1, 1000000⟩) [(0, 16000), (5000000, 100)] =
     [(15000000000, 16000), (15100000000, 100)] := by decide
 
+/-! ## 6. The user's allowance across re-activations (open finding: a fresh bucket per active-user record)
+
+`userPanel.GetUser` builds a new `LimitedValve` (full bucket) whenever the user has no active record, and
+`TerminateActiveUser` drops the record when the user's last session closes.  The property counts all of the user's
+sessions and connections together over ANY interval, so a user who disconnects and reconnects must be modelled as a
+sequence of activations, each served by its own fresh bucket. -/
+
+/-- bytes released in `[a, bb]` by a sequence of activations, each with a fresh full bucket -/
+def releasedActs (cap q : Int) (a bb : Int) : List (List (Int × Int)) → Int
+  | [] => 0
+  | r :: rest => released a bb (TB.run cap q ⟨cap, 0⟩ r) + releasedActs cap q a bb rest
+
+/-- the property as literally stated, for the USER: whatever the pattern of activations -/
+def c19_user_full (cap q : Int) : Prop :=
+  ∀ acts : List (List (Int × Int)), (∀ r ∈ acts, Good 0 r) → ∀ a bb : Int, a ≤ bb →
+    releasedActs cap q a bb acts ≤ cap + (bb - a) * q + q
+
+/-- **C19 (across re-activations, partial).** With `k` activations in play the bound is `k` times the
+per-activation bound of `c19_upper` — what is missing for the full statement is that a re-activation should not
+bring a fresh second's worth of burst (see `c19_reactivation_witness`). -/
+theorem c19_user_partial (cap q M : Int) (hcap : 0 < cap) (hq : 0 < q) (a bb : Int) (hab : a ≤ bb) :
+    ∀ acts : List (List (Int × Int)), (∀ r ∈ acts, Good 0 r ∧ ∀ x ∈ r, x.2 ≤ M) →
+      releasedActs cap q a bb acts ≤ (acts.length : Int) * (max cap (M + q - 1) + (bb - a) * q) := by
+  intro acts
+  induction acts with
+  | nil => intro _; simp [releasedActs]
+  | cons r rest ih =>
+    intro h
+    have h1 := c19_upper cap q M hcap hq a bb hab r (h r (by simp)).1 (h r (by simp)).2
+    have h2 := ih (fun x hx => h x (by simp [hx]))
+    simp only [releasedActs, List.length_cons]
+    have : ((rest.length + 1 : Nat) : Int) = (rest.length : Int) + 1 := by omega
+    rw [this, Int.add_mul]
+    omega
+
+/-- **C19 (open finding).** Two activations of a user with rate 1000 B/s (`q = 1`): a 1000-byte message in tick 0 on
+the first record, the last session closes, the user reconnects and sends another 1000-byte message in tick 1 on the
+new record's fresh bucket — 2000 bytes within one tick against the allowance of 1000 + 1 + 1. -/
+theorem c19_reactivation_witness : ¬ c19_user_full 1000 1 := by
+  intro h
+  have := h [[(0, 1000)], [(1, 1000)]] (by intro r hr; simp at hr; rcases hr with rfl | rfl <;> simp [Good, TBS.Good]) 0 1 (by decide)
+  revert this
+  decide
+
 end C19
 
 #print axioms C19.c19_upper
@@ -372,3 +416,5 @@ end C19
 #print axioms C19.gen_structure
 #print axioms C19.c19_upper_ns
 #print axioms C19.c19_witness_any
+#print axioms C19.c19_user_partial
+#print axioms C19.c19_reactivation_witness
